@@ -648,11 +648,21 @@ func (p *Parser) parseStmt(allowDeclaration bool) (stmt IStmt) {
 			}
 		}
 	}
-	if !p.prevLT && p.tt == SemicolonToken {
+	if p.tt == SemicolonToken && (!p.prevLT || endsWithSemicolon(stmt)) {
+		// a semicolon on the next line still ends a statement that needs one, it is an empty statement otherwise
 		p.next()
 	}
 	p.stmtLevel--
 	return
+}
+
+// endsWithSemicolon returns true for statements that are terminated by a semicolon.
+func endsWithSemicolon(stmt IStmt) bool {
+	switch stmt.(type) {
+	case *ExprStmt, *VarDecl, *ReturnStmt, *BranchStmt, *ThrowStmt, *DebuggerStmt, *DoWhileStmt, *DirectivePrologueStmt:
+		return true
+	}
+	return false
 }
 
 func (p *Parser) parseStmtList(in string) (list []IStmt) {
